@@ -40,7 +40,7 @@ function buildCase(rng) {
   const lateDecls = [];
   let usesLate = false;
   const spec = { props: [] };
-  const dyn = rng.pick(['static', 'static', 'static', 'identifier', 'spread', 'computedIdentKey', 'computedCallKey', 'empty', 'computedGetterKey', 'computedTemplateKey']);
+  const dyn = rng.pick(['static', 'static', 'static', 'identifier', 'spread', 'computedIdentKey', 'computedCallKey', 'empty', 'computedGetterKey', 'computedTemplateKey', 'inlineSpreadFirst', 'inlineSpreadLast']);
   for (const k of keys) {
     const fnTyped = rng.bool(0.35);
     const form = rng.pick(['none', 'keyvalue', 'keyvalue', 'keyvalue', 'getter', 'method', 'asyncMethod', 'shorthand', 'generatorMethod']);
@@ -61,7 +61,10 @@ function buildCase(rng) {
     } else if (form === 'getter') {
       if (isComputedLit) continue;
       tsType = fnTyped ? '() => string' : 'object';
-      entry = fnTyped ? `get ${keySrc}() { return helperFn; }` : `get ${keySrc}() { return V0; }`; feat.push(fnTyped ? 'getterFn' : 'getter');
+      // (a getter body is arbitrary code: several statements, early returns, locals)
+      const multi = rng.bool(0.4);
+      entry = multi ? (fnTyped ? `get ${keySrc}() { if (N0 > 5) return mk0; const picked = helperFn; return picked; }` : `get ${keySrc}() { const local = V0; if (N0 > 5) return null; return local; }`)
+        : fnTyped ? `get ${keySrc}() { return helperFn; }` : `get ${keySrc}() { return V0; }`; feat.push((fnTyped ? 'getterFn' : 'getter') + (multi ? ':multiStatement' : ''));
     } else if (form === 'generatorMethod') {
       tsType = '() => Generator<number>';
       entry = `${rng.bool(0.3) ? 'async ' : ''}*${keySrc}() { yield 1; yield "two-${k.key}"; }`; if (entry.startsWith('async')) tsType = '() => AsyncGenerator<number>'; feat.push(entry.startsWith('async') ? 'asyncGeneratorMethod' : 'generatorMethod');
@@ -95,6 +98,12 @@ function buildCase(rng) {
   if (dyn === 'static') defaultSrc = `{ ${(feat.includes('dupKey') ? entries : rng.shuffle(entries)).join(', ')} }`;
   else if (dyn === 'empty') { defaultSrc = '{}'; spec.props.forEach((p) => { p.hasDefault = false; }); }
   else if (dyn === 'identifier') { decls.push(`const DYN = { ${entries.join(', ')} };`); defaultSrc = 'DYN'; }
+  // a spread of an object literal written in place: later members override it, it overrides earlier ones
+  else if (dyn === 'inlineSpreadFirst' || dyn === 'inlineSpreadLast') {
+    const p0 = spec.props.find((p) => p.hasDefault && !p.fnTyped && /^[a-z]+$/.test(p.key) && entries.some((e) => e.startsWith(`${p.key}: `)));
+    const inner = p0 ? `{ ${p0.key}: "from-inline-spread", zz: 1 }` : '{ zz: 1 }';
+    defaultSrc = dyn === 'inlineSpreadFirst' ? `{ ...${inner}, ${entries.join(', ')} }`.replace(', }', ' }') : `{ ${entries.join(', ')}${entries.length ? ', ' : ''}...${inner} }`;
+  }
   else if (dyn === 'spread') { const half = Math.floor(entries.length / 2); decls.push(`const DYN = { ${entries.slice(0, half).join(', ')} };`); defaultSrc = `{ ...DYN, ${entries.slice(half).join(', ')} }`.replace(', }', ' }'); }
   else {
     // a computed key (identifier or call) naming one declared prop
